@@ -1,6 +1,7 @@
 import MontePyVerif.Lemmas.Pick
 import MontePyVerif.Lemmas.Text
 import MontePyVerif.Lemmas.ReadBack
+import MontePyVerif.Lemmas.TransformWrite
 /-!
 # C05 — numbers set through the API are written without loss
 
@@ -658,5 +659,91 @@ example : ReprExact "0.1".toList (1 / 10) := by
 /-- the default padding of `_generate_default_node` is one blank -/
 example : PadSep (some [PadItem.spaces 1]) :=
   Or.inr (Or.inr ⟨_, rfl, PadOK.spaces 1 [] (by decide) (by intro j r h; cases h)⟩)
+
+/-! ## the 12 numbers of a TR input: a jump is only written where MCNP reads the number the transform holds
+
+Model: `Model/TransformWrite.lean` (`Transform._default_entry`, the entry loops of `Transform._update_values`).
+Spec: `Spec/Transform.lean` (the defaults of a jumped-over entry, by the unit of the card).  The number a written
+entry *spells* is the business of the theorems above; here: which entries may stay a jump.  The state quantifies
+over every card that can have been read (jumps anywhere, any number of entries, either unit) and over the unit the
+transform has when it is written (the public `is_in_degrees` setter), so a unit switched after reading is included. -/
+
+open MontePyVerif.TransformWrite in
+/-- `Transform._default_entry` agrees with MCNP's table of defaults, for `TR` and `*TR` and all 12 positions -/
+theorem C05_transform_default_entry (inDegrees : Bool) (k : Nat) (hk : k < 12) :
+    defaultEntry inDegrees k = Spec.trDefault inDegrees k := defaultEntry_spec inDegrees k hk
+
+open MontePyVerif.TransformWrite in
+/-- the entry loop, for every list of nodes, every list of values and every starting position -/
+theorem C05_transform_entries (inDegrees : Bool) (k : Nat) (nodes : List (Option Rat)) (vals : List Rat)
+    (hk : k + vals.length ≤ 12) :
+    Spec.trReadFrom inDegrees k (updateFrom inDegrees k nodes vals) = vals :=
+  updateFrom_reads inDegrees vals k nodes hk
+
+example : 3 + ([0, 1, 0, -1, 0] : List Rat).length ≤ 12 := by decide
+
+open MontePyVerif.TransformWrite in
+/-- **every transform**, also one whose card lost jumps at its end to an earlier write: MCNP reads the entries
+    `_update_values` writes, in the unit whose modifier it writes and with the entries left off at the end taken as
+    jumps, as exactly the displacement and the rotation matrix the transform holds -/
+theorem C05_transform_written (s : State) (hd : s.disp.length = 3) (hr : s.rot.length ≤ 9) :
+    Spec.trRead s.inDegrees (heldNumbers s).length (writtenEntries s) = heldNumbers s := by
+  have hlen := heldNumbers_length s hd hr
+  have hfull := updateFrom_length s.inDegrees (heldNumbers s) 0 s.nodes
+  unfold Spec.trRead writtenEntries
+  by_cases hl : leftOffStays s = true
+  · simp only [hl, if_true]
+    have hnr : needsRotation s = false := by
+      unfold leftOffStays at hl; simp only [Bool.and_eq_true, Bool.not_eq_true'] at hl; exact hl.1
+    have hheld : heldNumbers s = s.disp := by simp [heldNumbers, hnr]
+    have hall : allDefaultFrom s.inDegrees (0 + s.nodes.length) ((heldNumbers s).drop s.nodes.length) = true := by
+      unfold leftOffStays at hl; simp only [Bool.and_eq_true] at hl
+      rw [hheld, Nat.zero_add]; exact hl.2
+    have h := updateFrom_take_reads s.inDegrees (heldNumbers s) 0 s.nodes s.nodes.length (by omega) hall
+    have hcount : (heldNumbers s).length - (List.take s.nodes.length (updateFrom s.inDegrees 0 s.nodes (heldNumbers s))).length
+        = (heldNumbers s).length - s.nodes.length := by
+      rw [List.length_take, hfull]; omega
+    rw [hcount]; exact h
+  · have hl' : leftOffStays s = false := by simpa using hl
+    simp only [hl', Bool.false_eq_true, if_false]
+    rw [hfull, Nat.sub_self]
+    simpa using updateFrom_reads s.inDegrees (heldNumbers s) 0 s.nodes (by omega)
+
+open MontePyVerif.TransformWrite in
+/-- a card that an earlier write left with two entries (`tr1 0 2j`, displacement (0, 1, 0) written `tr1 0 1`),
+    now with the displacement (0, 1, 5): the third entry comes back -/
+example : let s : State := ⟨false, true, [some 0, some 1], [0, 1, 5], []⟩
+    s.disp.length = 3 ∧ s.rot.length ≤ 9 ∧ writtenEntries s = [some 0, some 1, some 5] ∧
+    writtenEntries { s with disp := [0, 1, 0] } = [some 0, some 1] := by
+  decide
+
+open MontePyVerif.TransformWrite in
+/-- a card read in degrees with jumps on the diagonal, now in cosines with a rotation of 90 degrees about z -/
+example : let s : State := ⟨false, true, [some 1, some 2, some 3, none, some 90, some 90, some 90, none, some 90, some 90, some 90, none],
+                            [1, 2, 3], [0, 1, 0, -1, 0, 0, 0, 0, 1]⟩
+    s.disp.length = 3 ∧ s.rot.length ≤ 9 ∧ writtenEntries s =
+      [some 1, some 2, some 3, some 0, some 1, some 0, some (-1), some 0, some 0, some 0, some 0, none] := by
+  decide
+
+open MontePyVerif.TransformWrite in
+/-- **unit switched and matrix set through the API**: whatever card was read (unit, jumps), after
+    `is_in_degrees = b` and `rotation_matrix = m` (a matrix that is written: some entry is not 0) the written
+    entries, read in the unit `b` that is written, are the displacement and exactly `m` -/
+theorem C05_transform_unit_switch (s : State) (b : Bool) (m : List Rat) (hd : s.disp.length = 3)
+    (hm : m.length ≤ 9) (hne : m.any (fun x => decide (x ≠ 0)) = true) :
+    Spec.trRead b (s.disp ++ m).length (writtenEntries { s with inDegrees := b, rot := m }) = s.disp ++ m := by
+  have h := C05_transform_written { s with inDegrees := b, rot := m } hd hm
+  have hn : needsRotation { s with inDegrees := b, rot := m } = true := by
+    show (m.any (fun x => decide (x ≠ 0)) || decide (8 ≤ s.nodes.length) || !s.mainToAux) = true
+    rw [hne]; simp
+  have hf : flatPack { s with inDegrees := b, rot := m } = m := by
+    have : m ≠ [] := by intro h0; subst h0; simp at hne
+    cases m with
+    | nil => exact absurd rfl this
+    | cons x xs => simp [flatPack]
+  simpa [heldNumbers, hn, hf] using h
+
+example : ([1, 91, 90, 89, 1] : List Rat).length ≤ 9 ∧ ([1, 91, 90, 89, 1] : List Rat).any (fun x => decide (x ≠ 0)) = true := by
+  decide
 
 end MontePyVerif.C05
